@@ -333,7 +333,7 @@ func c11Run(c Case) (Result, error) {
 			}
 		})
 		if panicked {
-			return Result{}, fmt.Errorf("decoder panic: %s", pmsg)
+			return Result{}, implViolation("decoder panic: %s", pmsg)
 		}
 		ok := err == nil
 		enc, encc := "", ""
@@ -357,14 +357,14 @@ func c11Run(c Case) (Result, error) {
 		var sig crypto.Signature
 		panicked, pmsg := catch(func() { sig, serr = sk.Sign(unhx(in.Msg), h) })
 		if panicked {
-			return Result{}, fmt.Errorf("Sign panic: %s", pmsg)
+			return Result{}, implViolation("Sign panic: %s", pmsg)
 		}
 		size, nilh := 0, h == nil
 		if h != nil {
 			size = h.Size()
 		}
 		if serr == nil {
-			return Result{}, fmt.Errorf("Sign accepted hasher %s (signature %x)", in.Hasher, []byte(sig))
+			return Result{}, implViolation("Sign accepted hasher %s (signature %x)", in.Hasher, []byte(sig))
 		}
 		term := fmt.Sprintf("CSignGuard %s %s %s %s", cid, cqnat(size), cqbool(nilh), cqN(c11ErrClass(serr)))
 		return Result{Coq: term, Key: string(c.Input), Nontrivial: true, Obs: map[string]any{"error_class": c11ErrClass(serr), "error": serr.Error()}}, nil
@@ -385,7 +385,7 @@ func c11Run(c Case) (Result, error) {
 		}
 		sig, err := sk.Sign(msg, signH)
 		if err != nil {
-			return Result{}, fmt.Errorf("Sign failed: %w", err)
+			return Result{}, implViolation("Sign failed: %v", err)
 		}
 		n, _ := new(big.Int).SetString(c11Orders[in.Curve], 16)
 		pk := sk.PublicKey()
@@ -490,7 +490,7 @@ func c11Run(c Case) (Result, error) {
 		var verr error
 		panicked, pmsg := catch(func() { ok, verr = pk.Verify(sig, vmsg, h) })
 		if panicked {
-			return Result{}, fmt.Errorf("Verify panic: %s", pmsg)
+			return Result{}, implViolation("Verify panic: %s", pmsg)
 		}
 		fmtOK, ferr := crypto.SignatureFormatCheck(alg, sig)
 		if ferr != nil {
